@@ -213,7 +213,7 @@ def trr_cases(draw):
     return {"kind": "trr", "natoms": n, "frames": frames, "endian": draw(st.sampled_from([">", "<"])), "double": draw(st.booleans()),
             "with_v": draw(st.booleans()), "with_f": draw(st.sampled_from([False, False, True])), "with_box": draw(st.sampled_from([True, True, False])),
             "cuts": draw(st.lists(st.floats(0, 1), min_size=0, max_size=6)), "adjacent": draw(st.booleans()),
-            "mode": draw(st.sampled_from(["single-cuts", "multi"])), "stride": draw(st.sampled_from([1, 3, 7]))}
+            "mode": draw(st.sampled_from(["single-cuts", "multi"])), "stride": draw(st.sampled_from([1, 3, 7])), "exit_with_last": draw(st.booleans())}
 
 
 def trr_file(c):
@@ -243,8 +243,9 @@ class StuckReader(Exception):
     pass
 
 
-def drive_trr(data, schedule, path):
-    """Drive GromacsRunner.get_gromacs_frames with a stub process; each sleep() publishes the next chunk."""
+def drive_trr(data, schedule, path, exit_with_last=False):
+    """Drive GromacsRunner.get_gromacs_frames with a stub process; each sleep() publishes the next chunk.
+    exit_with_last: the writer has exited (poll() == 0) by the time its last chunk is visible, instead of one poll later."""
     from infretis.classes.engines import gromacs as g
 
     class Proc:
@@ -266,6 +267,8 @@ def drive_trr(data, schedule, path):
                 with open(path, "ab") as fh:
                     fh.write(data[state["written"] : c])
                 state["written"] = c
+            if exit_with_last and state["i"] == len(steps):
+                proc.returncode = 0
         else:
             proc.returncode = 0
 
@@ -322,12 +325,14 @@ def body_trr(rec, c):
                     offs = sorted(set(offs + [min(len(data), o + 1) for o in offs]))
                 scheds.append(offs)
         for sched in scheds:
-            got, live, exc = drive_trr(data, sched, path)
+            got, live, exc = drive_trr(data, sched, path, exit_with_last=c.get("exit_with_last", False))
             inside = any(o not in ends for o in sched)
             in_hdr = any(any(e - 100 < o < h for e, h in zip([0] + ends, hdr_ends)) for o in sched)
             classes = ["trr", "trr:" + c["mode"], "trr:big-endian" if c["endian"] == ">" else "trr:little-endian", "trr:double" if c["double"] else "trr:single"]
             if live:
                 classes.append("trr:frame-delivered-while-writer-running")
+            if c.get("exit_with_last"):
+                classes.append("trr:writer-exits-with-its-last-flush")
             if in_hdr:
                 classes.append("trr:cut-inside-a-header")
             rec.case(key=f"{fd}:{sched}", nontrivial=inside and (live > 0 or len(data) < 1200), classes=classes,
